@@ -614,6 +614,17 @@ def expr_for(draw, frag):
         ex = ["Tuple", [ex, draw(S.expr("INT", 2, frag))]]
     elif c == 1:
         ex = ["Call", ["Lookup", ["Var", "math"], "floor"], [ex]]
+    elif c == 5:
+        # sums with a negated term in the middle: a + (-1)*b + c is neither a - (b + c) nor
+        # (a - b) - c regrouped
+        v = lambda: draw(st.sampled_from((["Var", "x"], ["Var", "y"], ["Var", "z"],  # noqa: E731
+                                          ["Const", "int", 7], ["Var", "k"],
+                                          ["Product", [["Const", "int", 2], ["Var", "y"]]])))
+        neg = lambda t: ["Product", [["Const", "int", -1], t]]  # noqa: E731
+        terms = [v(), neg(v()), v()]
+        if draw(st.booleans()):
+            terms.insert(draw(st.integers(1, 2)), neg(v()) if draw(st.booleans()) else v())
+        ex = ["Sum", terms]
     elif c == 4:
         # a comparison as an operand of a comparison: (a < b) < c is not Python's chain
         v = lambda: draw(st.sampled_from((["Var", "x"], ["Var", "y"], ["Var", "z"],  # noqa: E731
